@@ -1,5 +1,6 @@
 import SwcVerif.Props.C10
 import SwcVerif.Refine.LMeasure
+import SwcVerif.Proofs.Represent
 /-! # C10, tied to the source by the translator
 
 The topological L-Measure functions `LMeasure.branch_order / n_stems / n_tips / n_bifs / n_branch / terminal_degree / fragmentation` of
@@ -81,11 +82,39 @@ theorem generated_fragmentation (b : List Int) (hb : b ≠ []) :
     lm_fragmentation b = some (((C08.pairs b).length : Nat) : Int) := by
   rw [(RefineLm.fragmentation_refines b).2 hb, fragmentation_eq]
 
+/-- **`LMeasure.terminal_degree` as translated is the number of tips at or below the node**: for the subtree `s` hanging at any node of a tree
+object, the translated `node.subtree().get_tips()` (translated `get_subtree_impl` over the translated traversal, `to_sub_topology`, then
+`np.setdiff1d` on the NEW table) counts exactly the nodes of `s` that no row names as its parent; this is the model's `terminalDegree`.
+Every fuel `≥ 2·|s| + 1` suffices. -/
+theorem generated_terminal_degree (pids : List Int) (s : Rose) (h : Represents s (Sub.rangeI pids.length) pids)
+    (hin : ∀ i ∈ s.ids, 0 ≤ i ∧ i.toNat < pids.length) (F : Nat) :
+    lm_terminal_degree (2 * s.size + F + 1) (Sub.rangeI pids.length) pids s.id
+        = some (((s.ids.filter fun v => !pids.contains v).length : Nat) : Int) ∧
+    lm_terminal_degree (2 * s.size + F + 1) (Sub.rangeI pids.length) pids s.id = some ((terminalDegree pids s.id : Nat) : Int) := by
+  have := RefineLm.terminalDegree_refines pids s h hin F
+  exact ⟨this, by rw [this, terminal_degree_eq_tips_below pids s h hin]⟩
+
+/-- … at every node of every well-formed tree (`C07.WF`), with the fuel the driver uses (`2n + 3`) or more -/
+theorem generated_terminal_degree_wf (pids : List Int) (hw : C07.WF pids) (k : Nat) (hk : k < pids.length) (F : Nat) :
+    ∃ s : Rose, s.id = (k : Int) ∧ Represents s (Sub.rangeI pids.length) pids ∧
+      lm_terminal_degree (2 * pids.length + F + 1) (Sub.rangeI pids.length) pids (k : Int)
+        = some (((s.ids.filter fun v => !pids.contains v).length : Nat) : Int) := by
+  obtain ⟨s, hid, hr, hin⟩ := Represent.wf_subtree_represented pids hw k hk
+  refine ⟨s, hid, hr, ?_⟩
+  have hsz : s.size ≤ pids.length := C06.rose_size_le s _ hr.2 hin
+  have := (generated_terminal_degree pids s hr hin (2 * (pids.length - s.size) + F)).1
+  rw [hid] at this
+  rw [← this]
+  congr 1
+  omega
+
 -- non-vacuity (kernel-evaluated): the tree of `C10.exP` (root 0 with children 1 and 4; 1 with children 2 and 3)
 example : (Sub.rangeI 5).map (lm_branch_order 7 (Sub.rangeI 5) exP) = [some 1, some 2, some 2, some 2, some 1] := by decide +kernel
 example : lm_n_stems (Sub.rangeI 5) exP [1, 3, 3, 3, 3] = some 2 ∧ lm_n_stems (Sub.rangeI 5) exP [3, 3, 3, 3, 3] = none ∧
           lm_n_tips (Sub.rangeI 5) exP [] = some 3 ∧ lm_n_bifs 11 (Sub.rangeI 5) exP [] = some 2 ∧ lm_n_branch 11 (Sub.rangeI 5) exP [] = some 4 ∧
-          lm_fragmentation [1, 3, 4] = some 2 := by decide +kernel
+          lm_fragmentation [1, 3, 4] = some 2 ∧
+          (Sub.rangeI 5).map (lm_terminal_degree 13 (Sub.rangeI 5) exP) = [some 3, some 2, some 1, some 1, some 1] ∧
+          lm_partition_asymmetry 13 (Sub.rangeI 5) exP 0 = some (1, 1) ∧ lm_partition_asymmetry 13 (Sub.rangeI 5) exP 2 = none := by decide +kernel
 example : C07.WF exP := by unfold C07.WF; decide +kernel
 
 end C10
